@@ -135,6 +135,7 @@ class FakeNode(object):
         self.generation = 0
         self.behaviour = {}           # free-form per-node switches used by property plans
         self.use_errors = []          # consumed per USE statement: error kind or None
+        self.use_delay = 0.0          # extra latency of a successful USE
         self.options_behaviour = []   # consumed per OPTIONS on a ready connection: 'ok' | 'error' | 'drop'
 
     # acceptor interface ---------------------------------------------------
@@ -320,7 +321,7 @@ class FakeNode(object):
                 return
             nc.keyspace = ks
             nc.use_log.append((cl.sim.nlog, ks))
-            nc.send(s, C.RESULT, C.set_keyspace_body(ks), delay=cl.sys_latency(self))
+            nc.send(s, C.RESULT, C.set_keyspace_body(ks), delay=cl.sys_latency(self) + self.use_delay)
             return
         mr = RID_RE.search(q)
         rid = int(mr.group(1)) if mr else None
